@@ -828,7 +828,7 @@ for gtag, ghosts in (("box", 0), ("ghosts", 1)):
 # ============================================================================ resolve loop: index fix-ups
 P.assume("resolve loop: stated at a cut (arbitrary head state of the loop `for i<collisions_N`): the current entry i and an "
          "arbitrary pending entry j>i are each either (-1,-1) or name two different live particles (0 <= p < N); "
-         "N_var == 0; integrator not MERCURIUS/TRACE; free_particle_ap not modelled")
+         "N_var == 0; free_particle_ap not modelled; hybrid integrators: tasks resolve.fixup.mercurius/trace.* (removal forced order-preserving)")
 P.assume("particle identity = ghost label carried in the `hash` member (labels of live particles pairwise different); the "
          "user resolve callback neither adds, removes nor reorders particles (it requests removals through its return value)")
 P.assume("reb_simulation_remove_particle is used through a summary contract written from its documented behaviour "
@@ -841,8 +841,12 @@ P.assume("fix-up loops: each iteration touches only collisions[j] (proved: frame
 ID = ("hash",)
 
 
-def fixup_task(v, keep_sorted, outcome, tree, mode):
-    s = mk_sim(v)
+def fixup_task(v, keep_sorted, outcome, tree, mode, hybrid=None):
+    """hybrid = "REB_INTEGRATOR_MERCURIUS" / "REB_INTEGRATOR_TRACE": reb_simulation_remove_particle removes order-preserving
+    whatever flag it is given (C14: `keep_sorted = 1; // Force keep_sorted for hybrid integrator`), so the fix-up of the
+    pending records must follow the order-preserving rule even though the user's collision_resolve_keep_sorted is 0"""
+    s = mk_sim(v, hybrid) if hybrid else mk_sim(v)
+    eff = 1 if hybrid else keep_sorted
     r = s.r
     E = v.eng
     E.merge_ifs = False
@@ -889,12 +893,13 @@ def fixup_task(v, keep_sorted, outcome, tree, mode):
         idn = ids_now(st)
         eng.oblige(st, t + ".callsite.index_valid", z3.And(0 <= index, index < N))
         eng.oblige(st, t + ".callsite.removes_the_intended_identity", z3.Select(idn, index) == z3.Select(ID0, want))
-        eng.oblige(st, t + ".callsite.keep_sorted_flag", as_int(ks) == keep_sorted)
+        if not hybrid:
+            eng.oblige(st, t + ".callsite.keep_sorted_flag", as_int(ks) == keep_sorted)
         arr = st.mem.get(parts_obj.id)
         k = z3.Int("k_rm")
         if tree:
             eng.write(st, Ptr(parts_obj.id, (index, "y")), z3.Real("NAN"))
-        elif keep_sorted:
+        elif eff:
             for leaf in list(arr.leaf_types):
                 old = eng._leaf_array(arr, leaf)
                 arr.leaves[leaf] = z3.Lambda([k], z3.If(k < index, z3.Select(old, k), z3.Select(old, k + 1)))
@@ -1011,6 +1016,14 @@ for ks in (0, 1):
                 to remove exactly the intended identities, and an arbitrary pending entry is invalidated iff it involves a
                 removed identity and otherwise names the same two identities, both alive."""
                 fixup_task(v, ks, outcome, False, mode)
+for hyb in ("MERCURIUS", "TRACE"):
+    for outcome in (1, 2, 3):
+        for mode in ("entry", "current"):
+            @P.task("resolve.fixup.%s.user_flag_unsorted.outcome%d.%s" % (hyb.lower(), outcome, mode), fn="reb_collision_search")
+            def _(v, hyb=hyb, outcome=outcome, mode=mode):
+                """hybrid integrators: removal is order-preserving regardless of collision_resolve_keep_sorted (= 0 here);
+                the pending records must be fixed up with the order-preserving rule"""
+                fixup_task(v, 0, outcome, False, mode, hybrid="REB_INTEGRATOR_" + hyb)
 for outcome in (1, 2, 3):
     @P.task("resolve.fixup.tree.outcome%d.entry" % outcome, fn="reb_collision_search")
     def _(v, outcome=outcome):
